@@ -94,6 +94,26 @@ def section_lines(rng, groups, R, *, sp=True, tev=True, junk=False, interleave=T
     return res
 
 
+EXOTIC_WS = ["　", " ", "\t", " ", "\x1f"]
+EXOTIC_ZERO = [0x660, 0xFF10, 0x966]
+
+
+def exotic_line(rng, line):
+    """Respell an instrument line '<tick> = N <i> <len>' / '<tick> = S 2 <len>' with non-ASCII white-space padding and
+    non-ASCII decimal digits in the tick and length (the index stays ASCII: the recogniser's class is [0-7])."""
+    parts = line.split(" ")
+    if len(parts) < 5 or not parts[0].isdigit() or not parts[-1].isdigit():
+        return line
+    z = rng.choice(EXOTIC_ZERO)
+    def resp(s):
+        return "".join(chr(z + int(ch)) for ch in s)
+    if rng.random() < 0.7:
+        parts[0] = resp(parts[0])
+    if rng.random() < 0.7:
+        parts[-1] = resp(parts[-1])
+    return rng.choice(EXOTIC_WS) * rng.randint(0, 2) + " ".join(parts) + rng.choice(["", rng.choice(EXOTIC_WS)])
+
+
 def gen_tempo(rng, R, span):
     tm = [(0, rng.choice([120000, 60000, 200000, 90500, 1118, 999999]))]
     t = 0
